@@ -26,6 +26,9 @@ func (p *Prog) CalleeName(c *ssa.CallCommon) string {
 	return "dyn:" + p.D().Of(c.Value)
 }
 
+// Unwrap is unwrap, exported.
+func Unwrap(fn *ssa.Function) *ssa.Function { return unwrap(fn) }
+
 // unwrap maps synthetic wrappers (bound methods, thunks) to the declared method.
 func unwrap(fn *ssa.Function) *ssa.Function {
 	if fn.Synthetic != "" && fn.Object() != nil && fn.Pkg == nil {
